@@ -48,6 +48,8 @@ import MenpoModel.Lemmas.C14TreeCtor
 import MenpoModel.Lemmas.C14Prune
 import MenpoModel.Lemmas.C14Kruskal
 import MenpoModel.Lemmas.C14KruskalComp
+import MenpoModel.Lemmas.C14KruskalUnique
+import MenpoModel.Core.C14Signed
 import MenpoModel.Lemmas.C14Levels
 import MenpoModel.Lemmas.C14MaskSeq
 import MenpoModel.Lemmas.C14Cyclomatic
@@ -694,5 +696,75 @@ theorem kruskal_minimum_spanning_forest (g : Graph) :
 
 example : exG.kruskalEdges = [(1, 3, 4), (2, 0, 1), (2, 0, 2), (4, 2, 4)] ∧ exG.kruskal = (9, 4) ∧
     exG.nComponents = 2 := by decide
+
+/-- PROPERTY (the minimum spanning forest is unique for pairwise different weights — the fact the comparison of
+`minimum_spanning_tree` with the reference rests on).  When no two candidate edges of the graph weigh the same, EVERY
+cycle-free list `F` of graph edges that connects what the graph connects and weighs no more than Kruskal's choice
+consists of exactly the edges Kruskal chooses: an implementation that returns a minimum spanning tree returns this one. -/
+theorem minimum_spanning_forest_unique (g : Graph)
+    (hdist : ∀ e ∈ g.wEdges, ∀ e' ∈ g.wEdges, e.1 = e'.1 → e = e')
+    (F : List WEdge) (hsub : ∀ e ∈ F, e ∈ g.wEdges) (hF : ForestOrd F)
+    (hspan : ∀ u v, u < g.n → v < g.n → Conn g.wEdges u v → Conn F u v)
+    (hmin : (F.map (·.1)).sum ≤ (g.kruskalEdges.map (·.1)).sum) :
+    ∀ e, e ∈ F ↔ e ∈ g.kruskalEdges := by
+  have h := kruskal_unique_forestR g hdist F.reverse (fun e he => hsub e (List.mem_reverse.1 he))
+    ((forestOrd_iff_reverse F).1 hF)
+    (fun u v hu hv hc => (conn_reverse F u v).2 (hspan u v hu hv hc))
+    (by
+      have h1 : (g.kruskalEdges.map (·.1)).sum = (g.kruskalState.2.map (·.1)).sum := by
+        simp [Graph.kruskalEdges]
+      rw [List.map_reverse, List.sum_reverse_nat]
+      omega)
+  intro e
+  rw [← h e, List.mem_reverse]
+
+/-- the triangle with weights 1, 2, 3 and a pendant edge of weight 4: pairwise different weights -/
+def exDistinct : Graph := Graph.ofRows [[0, 1, 3, 0], [1, 0, 2, 0], [3, 2, 0, 4], [0, 0, 4, 0]]
+example : (∀ e ∈ exDistinct.wEdges, ∀ e' ∈ exDistinct.wEdges, e.1 = e'.1 → e = e') ∧
+    exDistinct.kruskalEdges = [(1, 0, 1), (2, 1, 2), (4, 2, 3)] ∧
+    exDistinct.wEdges = [(1, 0, 1), (3, 0, 2), (2, 1, 2), (4, 2, 3)] := by decide
+
+/-! ## 12. Integer (negative) weights: the structural operations read the zero pattern, masking carries the sign -/
+
+/-- PROPERTY (weights of any sign).  On a graph whose stored entries are integers, the edge test, the rows and columns
+behind neighbours / children / parents (hence every query, cycle and tree test, path enumeration, the Tree constructor
+and the tree relations, which are built from them) are those of the graph of absolute values; selecting / masking
+commutes with taking absolute values; and the selected graph carries the ORIGINAL signed entries. -/
+theorem signed_structural_ops (g : SGraph) :
+    (∀ u v, g.isEdge u v = g.abs.isEdge u v) ∧ (∀ u, g.row u = g.abs.row u) ∧ (∀ v, g.col v = g.abs.col v) ∧
+    (∀ keep, (g.select keep).abs = g.abs.select keep) ∧ (∀ m, (g.mask m).abs = g.abs.mask m) ∧
+    (∀ keep i j, (g.select keep).w i j = g.w (keep.getD i 0) (keep.getD j 0)) ∧
+    (g.symmetricB = true → g.abs.symmetricB = true) := by
+  have hne : ∀ x : Int, (x != 0) = (x.natAbs != 0) := by
+    intro x; rw [Bool.eq_iff_iff]; simp [Int.natAbs_eq_zero]
+  refine ⟨fun u v => hne _, fun u => ?_, fun v => ?_, fun keep => rfl, fun m => rfl, fun keep i j => rfl, ?_⟩
+  · simp only [SGraph.row, Graph.row, SGraph.abs, hne]
+  · simp only [SGraph.col, Graph.col, SGraph.abs, hne]
+  · intro h
+    simp only [SGraph.symmetricB, Graph.symmetricB, SGraph.abs, List.all_eq_true, List.mem_range, beq_iff_eq] at h ⊢
+    intro i hi j hj
+    rw [h i hi j hj]
+
+/-- PROPERTY (masking a signed graph).  The entry between two survivors — sign included — is found between their new
+indices, the masked graph has one vertex per `True`, and its zero pattern is that of `Graph.mask` on the absolute
+values (to which `mask_induced`, `mask_mask`, `fromMask_spec` apply). -/
+theorem signed_mask_induced (g : SGraph) (m : List Bool) (hlen : m.length = g.n) :
+    (g.mask m).n = m.count true ∧
+    (∀ u v, m[u]? = some true → m[v]? = some true → (g.mask m).w (rank m u) (rank m v) = g.w u v) ∧
+    (g.mask m).abs = g.abs.mask m := by
+  refine ⟨?_, ?_, rfl⟩
+  · exact mask_n g.abs m hlen
+  · intro u v hu hv
+    simp only [SGraph.mask, SGraph.select, ← hlen]
+    rw [List.getD_eq_getElem?_getD, List.getD_eq_getElem?_getD, keepIdx_rank m u hu, keepIdx_rank m v hv]
+    rfl
+
+/-- weights of both signs on a path with a chord; masking out vertex 1 keeps the negative chord -/
+def exSigned : SGraph := ⟨4, fun i j =>
+  if (i, j) = (0, 1) ∨ (i, j) = (1, 0) then 2 else if (i, j) = (1, 2) ∨ (i, j) = (2, 1) then -3
+  else if (i, j) = (0, 2) ∨ (i, j) = (2, 0) then -5 else if (i, j) = (2, 3) ∨ (i, j) = (3, 2) then 7 else 0⟩
+example : exSigned.symmetricB = true ∧ exSigned.abs.edgesU = [(0, 1), (0, 2), (1, 2), (2, 3)] ∧
+    (exSigned.mask [true, false, true, true]).rows = [[0, -5, 0], [-5, 0, 7], [0, 7, 0]] ∧
+    exSigned.abs.hasCycles false = true ∧ (exSigned.mask [true, false, true, true]).abs.isTree false = true := by decide
 
 end MenpoModel.C14
